@@ -1,8 +1,8 @@
-\* exhaustive (quick): 3 temperatures, every kind pair, 24 constructions, every behaviour of up to 3 calls
+\* exhaustive (quick): 3 temperatures, 6 kind pairs x 2 constructions, every behaviour of up to 3 calls
 CONSTANTS NT = 3  NV = 1  MaxLevel = 4
-  KindChoices <- McKindsAll  TempChoices <- McTempsAll3  LinkPairs <- McLinks
+  KindChoices <- McKindsQuick  TempChoices <- McTempsTwo  LinkPairs <- McLinks
 INIT Init
-NEXT Next
+NEXT NextB
 CONSTRAINT Bound
 VIEW View
 INVARIANT TypeOK
